@@ -150,7 +150,7 @@ func NewContractSet() *ContractSet {
 }
 
 var clauseKeywords = map[string]bool{
-	"func": true, "extern": true, "spec": true, "axiom": true, "type": true, "lemma": true, "guarded": true, "guarded_where": true, "go_inline": true, "static_only": true, "only_callers": true, "solver_budget": true, "preserves": true,
+	"func": true, "extern": true, "spec": true, "axiom": true, "type": true, "lemma": true, "guarded": true, "guarded_where": true, "go_inline": true, "static_only": true, "only_callers": true, "solver_budget": true, "exact_strings": true, "preserves": true,
 	"requires": true, "ensures": true, "loop": true, "nullable": true, "at": true,
 	"ghost": true, "assigns": true, "modular": true, "inline": true, "trusted": true,
 	"mode": true, "alloc_bound": true, "pure": true, "protected_by": true, "immutable": true,
